@@ -260,23 +260,24 @@ Proof.
   intros e clear s H; unfold load_dump.
   pose proof H as ((_ & _ & _ & _ & _ & (Z1 & _)) & _).
   destruct (stored (sr (nd s))) as [[sn|]|]; try exact H. cbn in Z1. destruct Z1 as (S1 & S0 & SC).
+  destruct (clear && (eidx (s_e1 sn) <=? applied (nd s))); [exact H|].
   destruct (self_ver (nd s) <? s_ver sn); [exact H|]. cbv zeta.
-  match goal with |- S_ok (if dyn _ then update_cluster ?l ?X else ?Y) => assert (S_ok Y) as HY end.
+  match goal with |- S_ok (if dyn _ then _ else ?Y) => assert (S_ok Y) as HY end.
   { apply ok_upd; [intros n Hn; exact Hn|].
     match goal with |- S_ok (if ?c then upd ?f ?X else ?X) => assert (S_ok X) as HX end.
-    { destruct clear.
-      - apply ok_upd; [intros n Hn; exact Hn | exact H].
-      - match goal with |- S_ok match ?G with _ => _ end => destruct G as [|a [|b [|? ?]]] end;
-          try (apply ok_upd; [intros n Hn; exact Hn | exact H]).
-        destruct (_ && _); [|apply ok_upd; [intros n Hn; exact Hn | exact H]].
-        apply ok_upd; [|apply ok_upd; [intros n Hn; exact Hn | exact H]].
-        intros n Hn. apply node_ok_log; [|exact Hn]. apply Forall_delete_to. apply Hn. }
-    destruct (_ || _); [|exact HX].
+    { match goal with |- S_ok (if ?k then _ else _) => destruct k end;
+        [|apply ok_upd; [intros n Hn; exact Hn | exact H]].
+      apply ok_upd; [|apply ok_upd; [intros n Hn; exact Hn | exact H]].
+      intros n Hn. apply node_ok_log; [|exact Hn]. apply Forall_delete_to. apply Hn. }
+    match goal with |- S_ok (if ?c then _ else _) => destruct c end; [|exact HX].
     apply ok_upd; [|exact HX]. intros n Hn.
     assert (node_ok (n <| log := [s_e0 sn; s_e1 sn] |>)) as Hl by (apply node_ok_log; [repeat constructor; assumption | exact Hn]).
     exact Hl. }
   destruct (dyn (cf e)); [|exact HY].
-  apply ok_update_cluster; [apply Forall_filter; exact SC | exact HY].
+  match goal with |- S_ok (if _ then apply_membership _ _ ?U else ?U) => assert (S_ok U) as HU end.
+  { apply ok_update_cluster; [apply Forall_filter; exact SC | exact HY]. }
+  match goal with |- S_ok (if ?c then _ else _) => destruct c end; [|exact HU].
+  apply ok_apply_membership; [|exact HU]. apply Forall_get_entries. apply HU.
 Qed.
 
 (* ---- __sendAppendEntries ---- *)
@@ -655,8 +656,9 @@ Proof.
       * apply ok_upd; [|exact HU]. intros n Hn. apply node_ok_recv; [constructor | exact Hn].
   - pose proof (ok_set_transmission p Y Hm HX) as H1.
     destruct (set_transmission p Y) as [s1 done]; cbn [fst] in H1.
-    destruct (_ && _); cbv zeta; apply ok_ae_commit; [|exact H1].
-    apply ok_send_next_idx. apply ok_load_dump. exact H1.
+    destruct (_ && _); cbv zeta; [|destruct done]; apply ok_ae_commit; try exact H1.
+    + apply ok_send_next_idx. apply ok_load_dump. exact H1.
+    + apply ok_load_dump. exact H1.
 Qed.
 
 Theorem ok_on_message : forall e from m n, node_ok n -> msg_ok m -> S_ok (on_message e from m n).
